@@ -39,10 +39,64 @@ pub enum RecvMode {
     Readable,
 }
 
+/// One readiness wait issued before the datagram is consumed.
+#[derive(Clone, Copy, Debug, Serialize, Deserialize, PartialEq, Eq)]
+pub enum Wait {
+    /// `readable().await`
+    Readable,
+    /// `timeout(d ms, readable())`: the wait is dropped (cancelled) if nothing arrives in time
+    ReadableTimeout(u8),
+}
+
+/// The call that consumes the datagram.
+#[derive(Clone, Copy, Debug, Serialize, Deserialize, PartialEq, Eq)]
+pub enum Take {
+    RecvFrom,
+    /// `try_recv_from`; on WouldBlock sleep 1 ms and start the receive over
+    TryRecvFrom,
+    /// `try_recv` (no origin reported); on WouldBlock as above
+    TryRecv,
+    /// `timeout(d ms, recv_from(..))` repeated until it completes
+    RecvFromTimeout(u8),
+}
+
+/// How one receive is performed: zero or more readiness waits, then the consuming call.
+#[derive(Clone, Debug, Serialize, Deserialize, PartialEq, Eq)]
+pub struct Style {
+    pub waits: Vec<Wait>,
+    pub take: Take,
+}
+
+impl Style {
+    fn of_mode(m: RecvMode) -> Style {
+        match m {
+            RecvMode::RecvFrom => Style { waits: vec![], take: Take::RecvFrom },
+            RecvMode::TryLoop => Style { waits: vec![], take: Take::TryRecvFrom },
+            RecvMode::Readable => Style { waits: vec![Wait::Readable], take: Take::TryRecvFrom },
+        }
+    }
+    /// readiness waits a datagram sits through before it is consumed (recv_from waits once itself)
+    fn readiness_waits(&self) -> usize {
+        self.waits.len() + matches!(self.take, Take::RecvFrom | Take::RecvFromTimeout(_)) as usize
+    }
+}
+
 #[derive(Clone, Debug, Serialize, Deserialize)]
 pub enum OpKind {
-    /// slot = which of the host's socket slots; port: None = ephemeral, Some(slot) = fixed
-    Bind { localhost: bool, port: Option<u8>, mode: RecvMode, buf: u8, pause: u8 },
+    /// slot = which of the host's socket slots; port: None = ephemeral, Some(slot) = fixed.
+    /// `styles` / `bufs` are cycled through, one entry per completed receive; when empty the
+    /// legacy `mode` / `buf` apply to every receive.
+    Bind {
+        localhost: bool,
+        port: Option<u8>,
+        mode: RecvMode,
+        buf: u8,
+        pause: u8,
+        #[serde(default)]
+        styles: Vec<Style>,
+        #[serde(default)]
+        bufs: Vec<u8>,
+    },
     Send { dest: Dest, len: u8 },
     Join(u8),
     Leave(u8),
@@ -74,6 +128,25 @@ pub struct Scenario {
     /// probe mode: assert the clauses that known findings exclude in the main search
     #[serde(default)]
     pub strict_known: bool,
+    /// payloads and receive buffers below 8 bytes (down to 0) are taken as written; without it
+    /// (replay files from before this dimension existed) both are raised to 8
+    #[serde(default)]
+    pub v2: bool,
+}
+
+/// F-C09-1 is tolerated only while known_findings.json lists it with status "known".
+pub fn is_known(id: &str) -> bool {
+    static KNOWN: std::sync::OnceLock<Vec<String>> = std::sync::OnceLock::new();
+    KNOWN
+        .get_or_init(|| {
+            crate::engine::load_findings()
+                .into_iter()
+                .filter(|f| f.property == "C09" && f.status == "known")
+                .map(|f| f.id)
+                .collect()
+        })
+        .iter()
+        .any(|k| k == id)
 }
 
 const PORTS: [u16; 3] = [9000, 9001, 9002];
@@ -89,7 +162,7 @@ fn group_addr(v6: bool, g: u8) -> IpAddr {
 
 #[derive(Clone, Debug)]
 enum Ev {
-    Bind { uid: usize, host: usize, port: u16, localhost: bool, step: u64, buf: usize, pause: u64 },
+    Bind { uid: usize, host: usize, port: u16, localhost: bool, step: u64, bufs: Vec<usize>, pause: u64 },
     BindFailed { host: usize, kind: String },
     Drop { uid: usize, step: u64 },
     Join { uid: usize, group: u8, step: u64, ok: bool },
@@ -97,8 +170,9 @@ enum Ev {
     Connect { uid: usize, peer: SocketAddr, step: u64 },
     Broadcast { uid: usize, on: bool },
     Send { sid: u32, uid: usize, dst: SocketAddr, dest: Dest, len: usize, step: u64, err: Option<String> },
-    Recv { uid: usize, sid: u32, sender_uid: usize, n: usize, origin: SocketAddr, intact: bool, step: u64 },
-    Garbage { uid: usize, n: usize },
+    /// raw receipt: returned count, the buffer length offered, the bytes delivered, the origin
+    /// (None for try_recv), the style used
+    Recv { uid: usize, n: usize, buf: usize, data: Vec<u8>, origin: Option<SocketAddr>, waits: usize, step: u64 },
 }
 
 #[derive(Default)]
@@ -108,58 +182,89 @@ struct Shared {
     next_uid: Cell<usize>,
     next_sid: Cell<u32>,
     addrs: RefCell<Vec<IpAddr>>,
+    labels: RefCell<BTreeSet<String>>,
 }
 
+impl Shared {
+    fn label(&self, l: String) {
+        self.labels.borrow_mut().insert(l);
+    }
+}
+
+/// Payload of a send: the first `len` bytes of [send id (4), sender socket (2), len ^ 0x5aa5 (2), filler..].
+/// Send ids stay below 256 in every generated scenario, so one byte identifies the send.
 fn payload(sid: u32, uid: usize, len: usize) -> Vec<u8> {
-    let len = len.max(8);
-    let mut v = Vec::with_capacity(len);
+    let mut v = Vec::with_capacity(len.max(8));
     v.extend_from_slice(&sid.to_le_bytes());
     v.extend_from_slice(&(uid as u16).to_le_bytes());
     v.extend_from_slice(&((len as u16) ^ 0x5aa5).to_le_bytes());
     for i in 8..len {
         v.push((sid as usize * 7 + i * 13) as u8);
     }
+    v.truncate(len);
     v
 }
 
-async fn receiver(sh: Rc<Shared>, sock: Rc<UdpSocket>, uid: usize, mode: RecvMode, buf: usize, pause: u8) {
-    let mut b = vec![0u8; buf];
+/// One receive in the given style.  Ok((count, origin)).
+async fn recv_one(sock: &UdpSocket, style: &Style, b: &mut [u8]) -> std::io::Result<(usize, Option<SocketAddr>)> {
+    let ms = |d: u8| Duration::from_millis(d as u64);
+    loop {
+        for w in style.waits.iter() {
+            match w {
+                Wait::Readable => sock.readable().await?,
+                Wait::ReadableTimeout(d) => {
+                    // cancel safety of readable(): an abandoned wait loses nothing
+                    if let Ok(r) = tokio::time::timeout(ms(*d), sock.readable()).await {
+                        r?
+                    }
+                }
+            }
+        }
+        let r = match style.take {
+            Take::RecvFrom => sock.recv_from(b).await.map(|(n, o)| (n, Some(o))),
+            Take::TryRecvFrom => sock.try_recv_from(b).map(|(n, o)| (n, Some(o))),
+            Take::TryRecv => sock.try_recv(b).map(|n| (n, None)),
+            Take::RecvFromTimeout(d) => match tokio::time::timeout(ms(d.max(1)), sock.recv_from(b)).await {
+                Ok(r) => r.map(|(n, o)| (n, Some(o))),
+                Err(_) => continue,
+            },
+        };
+        match r {
+            // nothing there (or a documented false-positive readiness): poll again in 1 ms
+            Err(e) if e.kind() == std::io::ErrorKind::WouldBlock => tokio::time::sleep(ms(1)).await,
+            r => return r,
+        }
+    }
+}
+
+async fn receiver(sh: Rc<Shared>, sock: Rc<UdpSocket>, uid: usize, styles: Vec<Style>, bufs: Vec<usize>, pause: u8) {
+    let mut i = 0usize;
     loop {
         if pause > 0 {
             tokio::time::sleep(Duration::from_millis(pause as u64)).await;
         }
-        let r = match mode {
-            RecvMode::RecvFrom => sock.recv_from(&mut b).await,
-            RecvMode::TryLoop => loop {
-                match sock.try_recv_from(&mut b) {
-                    Err(e) if e.kind() == std::io::ErrorKind::WouldBlock => {
-                        tokio::time::sleep(Duration::from_millis(1)).await;
-                    }
-                    r => break r,
-                }
-            },
-            RecvMode::Readable => loop {
-                if sock.readable().await.is_err() {
-                    break Err(std::io::Error::other("readable failed"));
-                }
-                match sock.try_recv_from(&mut b) {
-                    Err(e) if e.kind() == std::io::ErrorKind::WouldBlock => continue,
-                    r => break r,
-                }
-            },
-        };
-        match r {
+        let style = &styles[i % styles.len()];
+        let buf = bufs[i % bufs.len()];
+        let mut b = vec![0xEEu8; buf];
+        match recv_one(&sock, style, &mut b).await {
             Ok((n, origin)) => {
-                if n < 8 || n > buf {
-                    sh.log.borrow_mut().push(Ev::Garbage { uid, n });
-                    continue;
+                i += 1;
+                let data = b[..n.min(buf)].to_vec();
+                sh.log.borrow_mut().push(Ev::Recv { uid, n, buf, data, origin, waits: style.readiness_waits(), step: sh.step.get() });
+                sh.label(format!("take:{}", match style.take {
+                    Take::RecvFrom => "recv_from",
+                    Take::TryRecvFrom => "try_recv_from",
+                    Take::TryRecv => "try_recv",
+                    Take::RecvFromTimeout(_) => "recv_from-under-timeout",
+                }));
+                sh.label(match style.waits.len() {
+                    0 => "explicit-readable-waits:0",
+                    1 => "explicit-readable-waits:1",
+                    _ => "explicit-readable-waits:2+",
+                }.to_string());
+                if style.waits.iter().any(|w| matches!(w, Wait::ReadableTimeout(_))) {
+                    sh.label("readable-under-timeout".to_string());
                 }
-                let sid = u32::from_le_bytes(b[0..4].try_into().unwrap());
-                let sender_uid = u16::from_le_bytes(b[4..6].try_into().unwrap()) as usize;
-                let len = (u16::from_le_bytes(b[6..8].try_into().unwrap()) ^ 0x5aa5) as usize;
-                let want = payload(sid, sender_uid, len);
-                let intact = n == len.min(buf) && want[..n] == b[..n];
-                sh.log.borrow_mut().push(Ev::Recv { uid, sid, sender_uid, n, origin, intact, step: sh.step.get() });
             }
             Err(_) => {
                 tokio::time::sleep(Duration::from_millis(1)).await;
@@ -205,7 +310,7 @@ async fn host_software(sh: Rc<Shared>, me: usize, sc: Scenario) -> turmoil::Resu
                     }
                 };
                 match op.kind {
-                    OpKind::Bind { localhost, port, mode, buf, pause } => {
+                    OpKind::Bind { localhost, port, mode, buf, pause, styles, bufs } => {
                         if slots[slot].is_some() {
                             continue;
                         }
@@ -215,11 +320,13 @@ async fn host_software(sh: Rc<Shared>, me: usize, sc: Scenario) -> turmoil::Resu
                             Ok(s) => {
                                 let uid = sh.next_uid.get();
                                 sh.next_uid.set(uid + 1);
-                                let buf = (buf as usize).clamp(8, 80);
+                                let lo_len = if sc.v2 { 0 } else { 8 };
+                                let bufs: Vec<usize> = if bufs.is_empty() { vec![buf] } else { bufs }.into_iter().map(|b| (b as usize).clamp(lo_len, 80)).collect();
+                                let styles = if styles.is_empty() { vec![Style::of_mode(mode)] } else { styles };
                                 let port = s.local_addr().unwrap().port();
-                                sh.log.borrow_mut().push(Ev::Bind { uid, host: me, port, localhost, step: k, buf, pause: pause as u64 });
+                                sh.log.borrow_mut().push(Ev::Bind { uid, host: me, port, localhost, step: k, bufs: bufs.clone(), pause: pause as u64 });
                                 let sock = Rc::new(s);
-                                let task = tokio::task::spawn_local(receiver(sh.clone(), sock.clone(), uid, mode, buf, pause));
+                                let task = tokio::task::spawn_local(receiver(sh.clone(), sock.clone(), uid, styles, bufs, pause));
                                 slots[slot] = Some(Live { uid, sock, task });
                             }
                             Err(e) => sh.log.borrow_mut().push(Ev::BindFailed { host: me, kind: format!("{:?}", e.kind()) }),
@@ -240,7 +347,7 @@ async fn host_software(sh: Rc<Shared>, me: usize, sc: Scenario) -> turmoil::Resu
                             }
                             let sid = sh.next_sid.get();
                             sh.next_sid.set(sid + 1);
-                            let len = (len as usize).clamp(8, 100);
+                            let len = (len as usize).clamp(if sc.v2 { 0 } else { 8 }, 100);
                             let dst = to_addr(&dest);
                             let data = payload(sid, l.uid, len);
                             // log before the call: a same-step delivery must find the send in the log
@@ -320,7 +427,7 @@ struct SockInfo {
     localhost: bool,
     from: u64,
     to: u64, // exclusive upper step bound (u64::MAX if never dropped)
-    buf: usize,
+    bufs: Vec<usize>,
     /// receiver's pause before every receive (ms): a slow receiver needs the socket to live longer
     pause: u64,
     connects: Vec<(u64, SocketAddr)>,
@@ -383,8 +490,8 @@ pub fn run(sc: &Scenario) -> Outcome {
     let mut member_iv: Vec<((usize, u16, u8), usize, usize)> = Vec::new();
     for (pos, ev) in log.iter().enumerate() {
         match ev {
-            Ev::Bind { uid, host, port, localhost, step, buf, pause } => {
-                socks.insert(*uid, SockInfo { host: *host, port: *port, localhost: *localhost, from: *step, to: u64::MAX, buf: *buf, pause: *pause, connects: vec![], broadcast: vec![] });
+            Ev::Bind { uid, host, port, localhost, step, bufs, pause } => {
+                socks.insert(*uid, SockInfo { host: *host, port: *port, localhost: *localhost, from: *step, to: u64::MAX, bufs: bufs.clone(), pause: *pause, connects: vec![], broadcast: vec![] });
             }
             Ev::Drop { uid, step } => {
                 let s = socks.get_mut(uid).unwrap();
@@ -599,43 +706,92 @@ pub fn run(sc: &Scenario) -> Outcome {
         }
     }
     // receipts
+    let late = |s: &SendInfo| s.step + w + (cap as u64 + 2) * (max_pause + 1) / tick + 2;
+    let tolerated_reuse = !sc.strict_known && is_known("F-C09-1");
+    let bytes_of: BTreeMap<u32, Vec<u8>> = sends.iter().map(|(sid, s)| (*sid, payload(*sid, s.uid, s.len))).collect();
+    // does a receipt of `n` bytes `data` into a buffer of `buf` bytes carry send `sid`, cut only to the buffer?
+    let carries = |sid: u32, n: usize, buf: usize, data: &[u8]| {
+        let p = &bytes_of[&sid];
+        n == p.len().min(buf) && p[..n] == data[..]
+    };
+    let origin_ok = |s: &SendInfo, origin: &Option<SocketAddr>| origin.map_or(true, |o| o.port() == s.origin_port && s.origin_ips.contains(&o.ip()));
+    /// a receipt whose bytes do not name its send: 0 bytes delivered (empty payload, or any payload into an empty buffer)
+    #[derive(Debug)]
+    struct Anon {
+        n: usize,
+        data: Vec<u8>,
+        buf: usize,
+        origin: Option<SocketAddr>,
+        step: u64,
+    }
+    let mut anon: BTreeMap<usize, Vec<Anon>> = BTreeMap::new();
     let mut got: BTreeSet<(u32, usize)> = BTreeSet::new();
     let mut fanout: BTreeMap<u32, usize> = BTreeMap::new();
     let mut connect_rejects = 0u64;
     for ev in log.iter() {
         match ev {
-            Ev::Garbage { uid, n } => {
-                out.fail("received-datagram-not-sent-by-anyone", format!("socket {uid} got {n} bytes that decode to no send"));
-                return out;
-            }
             Ev::BindFailed { host, kind } => {
                 if kind != "AddrInUse" {
                     out.fail("bind-failed-unexpectedly", format!("h{host}: {kind}"));
                     return out;
                 }
             }
-            Ev::Recv { uid, sid, sender_uid, n, origin, intact, step } => {
-                let Some(s) = sends.get(sid) else {
-                    out.fail("received-datagram-not-sent-by-anyone", format!("socket {uid} got send id {sid}"));
-                    return out;
-                };
+            Ev::Recv { uid, n, buf, data, origin, waits, step } => {
                 let r = &socks[uid];
-                if *sender_uid != s.uid {
-                    out.fail("payload-attributed-to-wrong-sender", format!("send {sid}: payload says socket {sender_uid}, sent by {}", s.uid));
+                if *n > *buf {
+                    out.fail("returned-length-exceeds-receive-buffer", format!("socket {uid}: a receive into a buffer of {buf} bytes returned {n}"));
                     return out;
                 }
-                if !*intact || *n != s.len.min(r.buf) {
-                    out.fail("payload-altered-or-wrong-length", format!("send {sid} len {} into buffer {}: got {n} bytes, intact {intact}", s.len, r.buf));
+                match (*n, *buf) {
+                    (0, 0) => out.label("receive:empty-buffer"),
+                    (0, _) => {
+                        out.label("receive:empty-datagram");
+                        if *waits >= 2 {
+                            out.label("receive:empty-datagram-after->=2-readiness-waits");
+                        }
+                    }
+                    (1..=7, _) => out.label("receive:1-7-bytes"),
+                    _ => {}
+                }
+                let cands: Vec<u32> = sends.keys().copied().filter(|sid| carries(*sid, *n, *buf, data)).collect();
+                if cands.is_empty() {
+                    // which send do the bytes claim to be?
+                    let guess = match *n {
+                        0 => None,
+                        1..=3 => Some(data[0] as u32),
+                        _ => Some(u32::from_le_bytes(data[0..4].try_into().unwrap())),
+                    };
+                    match guess.and_then(|g| sends.get(&g).map(|s| (g, s))) {
+                        Some((g, s)) if *n >= 6 && u16::from_le_bytes(data[4..6].try_into().unwrap()) as usize != s.uid => {
+                            out.fail("payload-attributed-to-wrong-sender", format!("send {g}: payload says socket {}, sent by {}", u16::from_le_bytes(data[4..6].try_into().unwrap()), s.uid));
+                        }
+                        Some((g, s)) => {
+                            out.fail("payload-altered-or-wrong-length", format!("send {g} len {} into buffer {buf}: got {n} bytes {data:?}, sent {:?}", s.len, bytes_of[&g]));
+                        }
+                        None => {
+                            out.fail("received-datagram-not-sent-by-anyone", format!("socket {uid} got {n} bytes {data:?} into a buffer of {buf}: no send has this payload"));
+                        }
+                    }
                     return out;
                 }
+                if cands.len() > 1 {
+                    // in practice only with 0 delivered bytes (send ids below 256 differ in the first byte)
+                    anon.entry(*uid).or_default().push(Anon { n: *n, data: data.clone(), buf: *buf, origin: *origin, step: *step });
+                    continue;
+                }
+                let sid = &cands[0];
+                let s = &sends[sid];
                 if !got.insert((*sid, *uid)) {
                     out.fail("datagram-delivered-twice-to-one-socket", format!("send {sid} socket {uid}"));
                     return out;
                 }
                 *fanout.entry(*sid).or_default() += 1;
+                if s.len > *buf {
+                    out.label("receive:payload-cut-to-buffer");
+                }
                 let rel = relation(s, *uid, r);
                 if rel == Rel::KnownPortReuse {
-                    if sc.strict_known {
+                    if !tolerated_reuse {
                         out.fail(
                             "multicast-delivered-to-socket-that-never-joined:port-reused-after-member-dropped",
                             format!("send {sid} to group {:?} at step {} (member then: an earlier socket on h{}:{}), received at step {step} by socket {uid} bound at step {} which never joined", s.dest, s.step, r.host, r.port, r.from),
@@ -658,14 +814,14 @@ pub fn run(sc: &Scenario) -> Outcome {
                     );
                     return out;
                 }
-                if origin.port() != s.origin_port || !s.origin_ips.contains(&origin.ip()) {
+                if !origin_ok(s, origin) {
                     out.fail(
                         "reported-source-address-wrong",
-                        format!("send {sid} by socket {} ({:?}) to {}: receiver saw origin {origin}, expected port {} ip in {:?}", s.uid, socks[&s.uid], s.dst, s.origin_port, s.origin_ips),
+                        format!("send {sid} by socket {} ({:?}) to {}: receiver saw origin {origin:?}, expected port {} ip in {:?}", s.uid, socks[&s.uid], s.dst, s.origin_port, s.origin_ips),
                     );
                     return out;
                 }
-                if *step > s.step + w + (cap as u64 + 2) * (max_pause + 1) / tick + 2 {
+                if *step > late(s) {
                     out.fail("datagram-delivered-too-late", format!("send {sid} at step {} received at step {step}", s.step));
                     return out;
                 }
@@ -673,9 +829,62 @@ pub fn run(sc: &Scenario) -> Outcome {
             _ => {}
         }
     }
+    // Receipts of 0 bytes do not say which send they are.  Per socket, they must be explained by
+    // distinct sends not otherwise received there: each by a send that targets the socket, whose
+    // payload cut to the buffer used is empty, with the reported origin, sent no later than the
+    // receipt.  (Bipartite matching; a matching that also covers the Must sends exists whenever
+    // both one-sided matchings do.)
+    let anon_edge = |a: &Anon, sid: u32, ruid: usize, targeted_only: bool| -> bool {
+        let s = &sends[&sid];
+        carries(sid, a.n, a.buf, &a.data)
+            && origin_ok(s, &a.origin)
+            && a.step >= s.step
+            && a.step <= late(s)
+            && (!targeted_only
+                || match relation(s, ruid, &socks[&ruid]) {
+                    Rel::No => false,
+                    Rel::KnownPortReuse => tolerated_reuse,
+                    _ => true,
+                })
+    };
+    let mut anon_receipts = 0u64;
+    for (uid, list) in anon.iter() {
+        anon_receipts += list.len() as u64;
+        let sids: Vec<u32> = sends.keys().copied().filter(|sid| !got.contains(&(*sid, *uid))).collect();
+        let adj: Vec<Vec<usize>> = list.iter().map(|a| (0..sids.len()).filter(|j| anon_edge(a, sids[*j], *uid, true)).collect()).collect();
+        let m = kuhn(&adj, sids.len());
+        if let Some(i) = m.iter().position(|x| x.is_none()) {
+            let a = &list[i];
+            if !adj[i].is_empty() {
+                out.fail(
+                    "datagram-delivered-twice-to-one-socket:more-empty-receipts-than-sends-that-explain-them",
+                    format!("socket {uid} ({:?}) got {} receipts of 0 bytes {list:?}; sends that can explain this one: {:?}", socks[uid], list.len(), adj[i].iter().map(|j| sids[*j]).collect::<Vec<_>>()),
+                );
+            } else if let Some(sid) = sids.iter().find(|sid| anon_edge(a, **sid, *uid, false)) {
+                let s = &sends[sid];
+                out.fail(
+                    "datagram-received-by-socket-not-targeted:empty-receipt",
+                    format!("socket {uid} ({:?}) got 0 bytes into a buffer of {} from {:?} at step {}; the only sends that fit do not target it, e.g. send {sid} by socket {} to {:?} {} at step {}", socks[uid], a.buf, a.origin, a.step, s.uid, s.dest, s.dst, s.step),
+                );
+            } else {
+                out.fail(
+                    "received-datagram-not-sent-by-anyone:empty-receipt",
+                    format!("socket {uid} ({:?}) got 0 bytes into a buffer of {} from {:?} at step {}: no send not already received there fits", socks[uid], a.buf, a.origin, a.step),
+                );
+            }
+            return out;
+        }
+        for j in m.iter().flatten() {
+            *fanout.entry(sids[*j]).or_default() += 1;
+            if relation(&sends[&sids[*j]], *uid, &socks[uid]) == Rel::KnownPortReuse {
+                out.exclude("F-C09-1");
+            }
+        }
+    }
     // must
     let mut must_checked = 0u64;
     let mut overflow_possible = false;
+    let mut missing: BTreeMap<usize, Vec<u32>> = BTreeMap::new();
     for (sid, s) in sends.iter() {
         // a loopback-bound socket sending off-host: outcome not specified by the property
         if socks[&s.uid].localhost && !matches!(s.dest, Dest::Loopback(_)) && s.err.is_some() {
@@ -714,21 +923,43 @@ pub fn run(sc: &Scenario) -> Outcome {
                 }
                 must_checked += 1;
                 if !got.contains(&(*sid, *ruid)) {
-                    let kind = match s.dest {
-                        Dest::Multicast(..) => "multicast",
-                        Dest::Broadcast(_) => "broadcast",
-                        Dest::Loopback(_) => "loopback",
-                        Dest::Own(_) => "own-address",
-                        Dest::Host(h, _) if h % n == socks[&s.uid].host => "own-address",
-                        _ => "unicast",
-                    };
-                    out.fail(
-                        format!("datagram-not-delivered-on-healthy-link:{kind}"),
-                        format!("send {sid} by socket {} ({:?}) to {:?} {} at step {} never reached socket {ruid} ({r:?}); {} datagrams addressed to it, capacity {cap}", s.uid, socks[&s.uid], s.dest, s.dst, s.step, addressed.get(ruid).copied().unwrap_or(0)),
-                    );
-                    return out;
+                    missing.entry(*ruid).or_default().push(*sid);
                 }
             }
+        }
+    }
+    // a Must send not received by name has to be one of the socket's 0-byte receipts
+    for (ruid, sids) in missing.iter() {
+        let r = &socks[ruid];
+        let empty = Vec::new();
+        let list = anon.get(ruid).unwrap_or(&empty);
+        let adj: Vec<Vec<usize>> = sids.iter().map(|sid| (0..list.len()).filter(|j| anon_edge(&list[*j], *sid, *ruid, true)).collect()).collect();
+        let m = kuhn(&adj, list.len());
+        if let Some(i) = m.iter().position(|x| x.is_none()) {
+            let sid = &sids[i];
+            let s = &sends[sid];
+            let kind = match s.dest {
+                Dest::Multicast(..) => "multicast",
+                Dest::Broadcast(_) => "broadcast",
+                Dest::Loopback(_) => "loopback",
+                Dest::Own(_) => "own-address",
+                Dest::Host(h, _) if h % n == socks[&s.uid].host => "own-address",
+                _ => "unicast",
+            };
+            out.fail(
+                format!("datagram-not-delivered-on-healthy-link:{kind}"),
+                format!(
+                    "send {sid} ({} bytes) by socket {} ({:?}) to {:?} {} at step {} never reached socket {ruid} ({r:?}); {} datagrams addressed to it, capacity {cap}; its receipts of 0 bytes: {list:?}, other sends owed to it and not received by name: {sids:?}",
+                    s.len,
+                    s.uid,
+                    socks[&s.uid],
+                    s.dest,
+                    s.dst,
+                    s.step,
+                    addressed.get(ruid).copied().unwrap_or(0)
+                ),
+            );
+            return out;
         }
     }
     let max_fan = fanout.values().copied().max().unwrap_or(0);
@@ -756,11 +987,68 @@ pub fn run(sc: &Scenario) -> Outcome {
             Dest::Multicast(..) => "dest:multicast",
         });
     }
+    for s in sends.values() {
+        out.label(match s.len {
+            0 => "payload:empty",
+            1..=7 => "payload:1-7",
+            _ => "payload:8+",
+        });
+    }
+    for l in sh.labels.borrow().iter() {
+        out.label(l.clone());
+    }
     out.count("sends", sends.len() as u64);
-    out.count("receipts", got.len() as u64);
+    out.count("receipts", got.len() as u64 + anon_receipts);
+    out.count("receipts of 0 bytes attributed by matching", anon_receipts);
     out.count("must-deliveries checked", must_checked);
     out.nontrivial = max_fan >= 2 || overflow_possible || connect_rejects > 0;
     out
+}
+
+/// Maximum bipartite matching (augmenting paths); returns for every left vertex its partner.
+fn kuhn(adj: &[Vec<usize>], nright: usize) -> Vec<Option<usize>> {
+    fn aug(u: usize, adj: &[Vec<usize>], seen: &mut [bool], mr: &mut [Option<usize>]) -> bool {
+        for &v in &adj[u] {
+            if seen[v] {
+                continue;
+            }
+            seen[v] = true;
+            if mr[v].is_none() || aug(mr[v].unwrap(), adj, seen, mr) {
+                mr[v] = Some(u);
+                return true;
+            }
+        }
+        false
+    }
+    let mut mr: Vec<Option<usize>> = vec![None; nright];
+    for u in 0..adj.len() {
+        let mut seen = vec![false; nright];
+        aug(u, adj, &mut seen, &mut mr);
+    }
+    let mut ml = vec![None; adj.len()];
+    for (v, u) in mr.iter().enumerate() {
+        if let Some(u) = u {
+            ml[*u] = Some(v);
+        }
+    }
+    ml
+}
+
+fn style_strategy() -> BoxedStrategy<Style> {
+    let wait = prop_oneof![3 => Just(Wait::Readable), 1 => (0u8..=2).prop_map(Wait::ReadableTimeout)];
+    let take = prop_oneof![3 => Just(Take::RecvFrom), 3 => Just(Take::TryRecvFrom), 1 => Just(Take::TryRecv), 1 => (1u8..=3).prop_map(Take::RecvFromTimeout)];
+    (prop_oneof![3 => Just(0usize), 3 => Just(1usize), 2 => Just(2usize), 1 => Just(3usize)], proptest::collection::vec(wait, 3), take)
+        .prop_map(|(k, mut waits, take)| {
+            waits.truncate(k);
+            Style { waits, take }
+        })
+        .boxed()
+}
+
+/// (styles, bufs) of one receiver
+fn rx_strategy() -> BoxedStrategy<(Vec<Style>, Vec<u8>)> {
+    let buf = prop_oneof![2 => Just(0u8), 3 => 1u8..=7, 2 => Just(8u8), 13 => 9u8..=80];
+    (proptest::collection::vec(style_strategy(), 1..=3), proptest::collection::vec(buf, 1..=3)).boxed()
 }
 
 pub fn strategy() -> BoxedStrategy<Scenario> {
@@ -775,11 +1063,10 @@ pub fn strategy() -> BoxedStrategy<Scenario> {
         2 => (0u8..3).prop_map(Dest::Broadcast),
         3 => (0u8..2, 0u8..3).prop_map(|(g, p)| Dest::Multicast(g, p)),
     ];
-    let mode = prop_oneof![Just(RecvMode::RecvFrom), Just(RecvMode::TryLoop), Just(RecvMode::Readable)];
     let kind = prop_oneof![
-        5 => (prop_oneof![4 => Just(false), 1 => Just(true)], prop_oneof![4 => (0u8..3).prop_map(Some), 1 => Just(None)], mode, prop_oneof![1 => Just(8u8), 2 => 9u8..=80], prop_oneof![4 => Just(0u8), 1 => 1u8..=5])
-            .prop_map(|(localhost, port, mode, buf, pause)| OpKind::Bind { localhost, port, mode, buf, pause }),
-        10 => (dest.clone(), 8u8..=100).prop_map(|(dest, len)| OpKind::Send { dest, len }),
+        5 => (prop_oneof![4 => Just(false), 1 => Just(true)], prop_oneof![4 => (0u8..3).prop_map(Some), 1 => Just(None)], rx_strategy(), prop_oneof![4 => Just(0u8), 1 => 1u8..=5])
+            .prop_map(|(localhost, port, (styles, bufs), pause)| OpKind::Bind { localhost, port, mode: RecvMode::RecvFrom, buf: 8, pause, styles, bufs }),
+        10 => (dest.clone(), prop_oneof![3 => Just(0u8), 3 => 1u8..=7, 14 => 8u8..=100]).prop_map(|(dest, len)| OpKind::Send { dest, len }),
         3 => (0u8..2).prop_map(OpKind::Join),
         1 => (0u8..2).prop_map(OpKind::Leave),
         1 => dest.prop_map(OpKind::Connect),
@@ -790,17 +1077,18 @@ pub fn strategy() -> BoxedStrategy<Scenario> {
     (
         (2usize..=4, any::<bool>(), 1u32..=3, lat, prop_oneof![2 => 1usize..=3, 2 => Just(64usize)], any::<u64>(), any::<bool>()),
         proptest::collection::vec((1u32..30, 0usize..4, 0u8..3, kind), 4..60),
+        proptest::collection::vec(rx_strategy(), 4),
     )
-        .prop_map(|((nhosts, v6, tick_ms, (lat_min, lat_max), capacity, seed, random_order), ops)| {
+        .prop_map(|((nhosts, v6, tick_ms, (lat_min, lat_max), capacity, seed, random_order), ops, pre_rx)| {
             let mut ops: Vec<Op> = ops.into_iter().map(|(step, host, slot, kind)| Op { step, host, slot, kind }).collect();
             // make sure most sockets exist early: the first ops of every host become binds at step 1
             ops.sort_by_key(|o| o.step);
-            Scenario { nhosts, v6, tick_ms, lat_min, lat_max, capacity, seed, random_order, ops, strict_known: false }
+            (Scenario { nhosts, v6, tick_ms, lat_min, lat_max, capacity, seed, random_order, ops, strict_known: false, v2: true }, pre_rx)
         })
-        .prop_map(|mut sc| {
+        .prop_map(|(mut sc, pre_rx)| {
             // seed the scenario with one wildcard socket per host on a common port
             let pre: Vec<Op> = (0..sc.nhosts)
-                .map(|h| Op { step: 1, host: h, slot: 0, kind: OpKind::Bind { localhost: false, port: Some((sc.seed % 3) as u8), mode: [RecvMode::RecvFrom, RecvMode::TryLoop, RecvMode::Readable][(sc.seed as usize + h) % 3], buf: 8 + ((sc.seed >> 8) % 60) as u8, pause: 0 } })
+                .map(|h| Op { step: 1, host: h, slot: 0, kind: OpKind::Bind { localhost: false, port: Some((sc.seed % 3) as u8), mode: RecvMode::RecvFrom, buf: 8, pause: 0, styles: pre_rx[h].0.clone(), bufs: pre_rx[h].1.clone() } })
                 .collect();
             let mut ops = pre;
             // most hosts join group 0 and enable broadcast on that common socket
@@ -819,6 +1107,56 @@ pub fn strategy() -> BoxedStrategy<Scenario> {
         .boxed()
 }
 
+/// Bounded-exhaustive family: one receiver on h0:9000 using a single receive style and buffer
+/// length, two datagrams sent to it (by a remote socket, or by a second socket on its own host
+/// through 127.0.0.1) in the same step or 4 steps apart.  Styles: every sequence of <= 2 readiness
+/// waits over {readable, readable under a 0 ms / 2 ms timeout} x every consuming call; payload
+/// lengths {0, 3, 8, 30}^2; buffer lengths {0, 3, 8, 40}.
+pub fn style_family() -> Vec<Scenario> {
+    let w = [Wait::Readable, Wait::ReadableTimeout(0), Wait::ReadableTimeout(2)];
+    let mut wait_seqs: Vec<Vec<Wait>> = vec![vec![]];
+    for a in w {
+        wait_seqs.push(vec![a]);
+        for b in w {
+            wait_seqs.push(vec![a, b]);
+        }
+    }
+    let takes = [Take::RecvFrom, Take::TryRecvFrom, Take::TryRecv, Take::RecvFromTimeout(2)];
+    let lens = [0u8, 3, 8, 30];
+    let bufs = [0u8, 3, 8, 40];
+    let mut v = Vec::new();
+    for waits in &wait_seqs {
+        for take in takes {
+            for l1 in lens {
+                for l2 in lens {
+                    for buf in bufs {
+                        for gap in [0u32, 4] {
+                            for local in [false, true] {
+                                let style = Style { waits: waits.clone(), take };
+                                let bind = |host: usize, slot: u8, port: u8, styles: Vec<Style>, bufs: Vec<u8>| Op {
+                                    step: 1,
+                                    host,
+                                    slot,
+                                    kind: OpKind::Bind { localhost: false, port: Some(port), mode: RecvMode::RecvFrom, buf: 8, pause: 0, styles, bufs },
+                                };
+                                let (sh, ss, dest) = if local { (0usize, 1u8, Dest::Loopback(0)) } else { (1usize, 0u8, Dest::Host(0, 0)) };
+                                let ops = vec![
+                                    bind(0, 0, 0, vec![style], vec![buf]),
+                                    bind(sh, ss, 1, vec![], vec![40]),
+                                    Op { step: 3, host: sh, slot: ss, kind: OpKind::Send { dest, len: l1 } },
+                                    Op { step: 3 + gap, host: sh, slot: ss, kind: OpKind::Send { dest, len: l2 } },
+                                ];
+                                v.push(Scenario { nhosts: 2, v6: false, tick_ms: 1, lat_min: 1, lat_max: 1, capacity: 64, seed: 1, random_order: false, ops, strict_known: false, v2: true });
+                            }
+                        }
+                    }
+                }
+            }
+        }
+    }
+    v
+}
+
 /// Clamp a structurally decoded scenario into the generator's domain (fuzz tier).
 pub fn fuzz_sanitize(sc: &mut Scenario) -> bool {
     sc.nhosts = 2 + sc.nhosts % 3;
@@ -827,6 +1165,7 @@ pub fn fuzz_sanitize(sc: &mut Scenario) -> bool {
     sc.lat_max = sc.lat_min + sc.lat_max % 11;
     sc.capacity = if sc.capacity % 4 == 0 { 64 } else { sc.capacity % 4 };
     sc.strict_known = false;
+    sc.v2 = true;
     let fix_dest = |d: &mut Dest| match d {
         Dest::Host(h, p) => {
             *h %= 4;
@@ -843,11 +1182,30 @@ pub fn fuzz_sanitize(sc: &mut Scenario) -> bool {
         o.host %= 4;
         o.slot %= 3;
         match &mut o.kind {
-            OpKind::Bind { port, pause, .. } => {
+            OpKind::Bind { port, pause, styles, bufs, .. } => {
                 *port = port.map(|p| p % 3);
                 *pause %= 6;
+                styles.truncate(3);
+                for st in styles.iter_mut() {
+                    st.waits.truncate(3);
+                    for w in st.waits.iter_mut() {
+                        if let Wait::ReadableTimeout(d) = w {
+                            *d %= 3;
+                        }
+                    }
+                    if let Take::RecvFromTimeout(d) = &mut st.take {
+                        *d = 1 + *d % 3;
+                    }
+                }
+                bufs.truncate(3);
+                for b in bufs.iter_mut() {
+                    *b %= 81;
+                }
             }
-            OpKind::Send { dest, .. } => fix_dest(dest),
+            OpKind::Send { dest, len } => {
+                fix_dest(dest);
+                *len %= 101;
+            }
             OpKind::Connect(d) => fix_dest(d),
             OpKind::Join(g) | OpKind::Leave(g) => *g %= 2,
             _ => {}
@@ -855,7 +1213,7 @@ pub fn fuzz_sanitize(sc: &mut Scenario) -> bool {
     }
     // every host gets a wildcard socket on a common port first, as in the generator
     let mut ops: Vec<Op> = (0..sc.nhosts)
-        .map(|h| Op { step: 1, host: h, slot: 0, kind: OpKind::Bind { localhost: false, port: Some(0), mode: RecvMode::RecvFrom, buf: 40, pause: 0 } })
+        .map(|h| Op { step: 1, host: h, slot: 0, kind: OpKind::Bind { localhost: false, port: Some(0), mode: RecvMode::RecvFrom, buf: 40, pause: 0, styles: vec![], bufs: vec![] } })
         .collect();
     ops.extend(sc.ops.drain(..));
     sc.ops = ops;
@@ -865,11 +1223,19 @@ pub fn fuzz_sanitize(sc: &mut Scenario) -> bool {
 fn check(tier: Tier, seed: u64) -> i32 {
     let ctx = Ctx::new("C09", tier, seed, "exploration");
     ctx.replay_corpus(&replay);
-    ctx.random("routing", tier.pick(12_000, 200_000), &|| strategy(), &run);
+    let fam = style_family();
+    let desc = format!(
+        "{} scenarios: one receiver with a single receive style (every sequence of <= 2 readiness waits over readable / readable under a 0 or 2 ms timeout, then recv_from / try_recv_from / try_recv / recv_from under a timeout) and buffer length in {{0,3,8,40}}; two datagrams with payload lengths in {{0,3,8,30}}^2 sent to it in one step or 4 steps apart, from a remote host or from its own host via 127.0.0.1",
+        fam.len()
+    );
+    ctx.exhaustive("receive-styles", &desc, Box::new(fam.into_iter()), &run);
+    ctx.random("routing", tier.pick(30_000, 400_000), &|| strategy(), &run);
     ctx.finish(
-        "random scripts over 2-4 hosts, v4/v6: up to 3 sockets per host bound to wildcard or localhost on one of 3 fixed ports or an ephemeral port, receiving through recv_from / try_recv_from polling / readable+try_recv_from with buffers of 8-80 bytes and optional pauses; sends of 8-100 byte payloads (send id, sender socket id, filler) to a host, the sender's own address, 127.0.0.1/::1, the broadcast address and two multicast groups; join/leave, connect, broadcast and multicast-loop options, socket drops; udp_capacity 1-3 or 64; fixed or ranged latency; random host order. Model: for every (send, socket) the relation No/May/Must from the script; every receipt must be May/Must, intact (cut only to the buffer), first of its (send, socket), with the expected source address; every Must pair must be received unless more datagrams were addressed to the socket than the capacity. Non-trivial = a send fanned out to >= 2 sockets, or overflow was possible, or a connected-peer filter rejected something. Distinct by scenario hash.",
+        "random scripts over 2-4 hosts, v4/v6: up to 3 sockets per host bound to wildcard or localhost on one of 3 fixed ports or an ephemeral port; every receiver cycles, one entry per receive, through 1-3 generated receive styles (0-3 readiness waits, each readable() or readable() under a 0-2 ms timeout, then recv_from / try_recv_from / try_recv / recv_from under a 1-3 ms timeout; non-blocking calls poll every 1 ms) and 1-3 receive buffer lengths of 0-80 bytes, with optional pauses; sends of 0-100 byte payloads (the first len bytes of: send id, sender socket id, length, filler) to a host, the sender's own address, 127.0.0.1/::1, the broadcast address and two multicast groups; join/leave, connect, broadcast and multicast-loop options, socket drops; udp_capacity 1-3 or 64; fixed or ranged latency; random host order. Model: for every (send, socket) the relation No/May/Must from the script; every receipt must return a count <= the buffer offered and bytes equal to some send's payload cut to that buffer; a receipt naming its send (>= 1 byte delivered) must be May/Must, first of its (send, socket), with the expected source address (when the call reports one); receipts of 0 bytes (empty payload, or empty buffer) must be matched one-to-one (bipartite matching per socket) with sends that target the socket, are empty after the cut, carry the reported origin, were sent no later than the receipt and were not received there by name; every Must pair must be received by name or matched to a 0-byte receipt unless more datagrams were addressed to the socket than the capacity. A bounded-exhaustive sub-tier runs every receive style x payload lengths x buffer length on a two-datagram exchange. Non-trivial = a send fanned out to >= 2 sockets, or overflow was possible, or a connected-peer filter rejected something. Distinct by scenario hash.",
         &[
             "fail_rate 0, no partitions/holds",
+            "one task per socket does all receives; concurrent readers of one socket are not generated",
+            "fewer than 256 sends per run, so the first payload byte identifies the send",
             "exactly-one is asserted only for sockets that existed during the whole delivery window with a stable connect state and to which no more datagrams were addressed in the whole run than udp_capacity",
             "cases the property leaves open are May: own-host multicast members (loop option), loopback-bound senders sending off-host, sockets bound/dropped in the step of a broadcast",
         ],
